@@ -67,10 +67,8 @@ class Check:
         pid = self.pid
         known = [k for k in load_known() if k.prop == pid and k.kind == 'finding']
         counts = collections.Counter(o['rule'] for o in self.obligations)
-        for r, mn in self.rule_min.items():
-            if counts.get(r, 0) < mn:
-                raise AnalysisBroken('rule %s matched %d instances, fewer than the %d confirmed by hand'
-                                     % (r, counts.get(r, 0), mn))
+        short = ['rule %s matched %d instances, fewer than the %d confirmed by hand' % (r, counts.get(r, 0), mn)
+                 for r, mn in self.rule_min.items() if counts.get(r, 0) < mn]
         # several sites may share one semantic key: the instance holds only if all of them do
         first = {}
         for o in self.obligations:
@@ -95,6 +93,12 @@ class Check:
                 knownhits.append((o, hit))
             else:
                 viol.append(o)
+        if short and not viol:
+            # nothing concrete to report and part of the analysis lost its anchors
+            raise AnalysisBroken('; '.join(short))
+        for m in short:
+            # a violation with its own witness stands; the starved rule is reported alongside
+            print('note: analysis incomplete: ' + m)
         noev = bool(os.environ.get('ASL_NO_EVIDENCE'))
         wdir = os.path.join(VERIF, 'out', 'witness-scratch' if noev else 'witness')
         os.makedirs(wdir, exist_ok=True)
